@@ -1217,7 +1217,8 @@ def _real_clang_job(args):
         r = run_proc([exe], os.path.join(root, "build"), base_env())
         sc2 = dict(sc)
         sc2["sub"] = "run"
-        sc2["opts"] = [o for o in sc["opts"]]
+        sc2["opts"] = [o for o in sc["opts"] if not o.startswith("--backend-args=")]
+        sc2["backend_args"] = []
         sc2["stubs"] = ["lli"]
         sc2["backend_id"] = "lli"
         sc2["env"] = {k: v for k, v in sc["env"].items() if not k.startswith("PENNE_")}
